@@ -349,4 +349,6 @@ func generate(c *Config) {
 	for i := c.Count(6, 150); i > 0; i-- {
 		emit(c, genHeavy(c, 3000))
 	}
+	// round 4: content of the values (content.go)
+	generateContent(c)
 }
